@@ -18,6 +18,7 @@ package simrt
 
 import (
 	"fmt"
+	"os"
 	"runtime"
 	"sort"
 	"strings"
@@ -971,6 +972,9 @@ func (r *Run) Schedule(fair bool, stop func() bool) Outcome {
 		if clocked && !fair {
 			r.clockAdvance()
 		}
+		if debugWait {
+			r.checkQuiescent()
+		}
 		rs := r.runnable()
 		if len(rs) == 0 {
 			if r.allDone() {
@@ -1004,6 +1008,7 @@ func (r *Run) Schedule(fair bool, stop func() bool) Outcome {
 		r.hashStep(t)
 		if r.TraceOn {
 			r.Trace = append(r.Trace, fmt.Sprintf("%d %s @%s t=%v", r.Steps, t.Name, t.site, r.Now()))
+
 		}
 		r.cur = t
 		t.state = stRunning
@@ -1117,4 +1122,35 @@ func (r *Run) Summary() string {
 		}
 	}
 	return sb.String()
+}
+
+var debugWait = os.Getenv("VERIF_DEBUG_WAIT") != ""
+
+// checkQuiescent (debug aid): after synctest.Wait every task that is not
+// parked must be blocked, never running or runnable.
+func (r *Run) checkQuiescent() {
+	buf := make([]byte, 1<<20)
+	n := runtime.Stack(buf, true)
+	txt := string(buf[:n])
+	for _, t := range r.tasks {
+		if t == nil || t.state != stRunning {
+			continue
+		}
+		hdr := fmt.Sprintf("goroutine %d [", t.goid)
+		i := strings.Index(txt, hdr)
+		if i < 0 {
+			continue
+		}
+		st := txt[i+len(hdr):]
+		if j := strings.IndexAny(st, "],"); j >= 0 {
+			st = st[:j]
+		}
+		if st == "running" || st == "runnable" {
+			k := strings.Index(txt[i:], "\n\n")
+			if k < 0 {
+				k = len(txt) - i
+			}
+			fmt.Fprintf(os.Stderr, "WAIT-EARLY step=%d task=%s status=%s\n%s\n", r.Steps, t.Name, st, txt[i:i+k])
+		}
+	}
 }
